@@ -95,9 +95,9 @@ pub fn run(ctx: &mut Ctx, which: Which) {
             chunk.copy_from_slice(&crate::prng::splitmix(&mut s).to_le_bytes());
         }
     }
-    let max_incoming = match ctx.tape.choose(4) {
-        0 => 16,
-        1 => 0,
+    let max_incoming = match ctx.tape.choose(6) {
+        0..=2 => 16,
+        3 => 0,
         _ => ctx.tape.choose(17) as usize,
     };
     let timeout_ms: u64 = *ctx.tape.pick(&[0u64, 1, 40, 1000, 60_000, 100_000_000]);
@@ -157,6 +157,24 @@ pub fn run(ctx: &mut Ctx, which: Which) {
         v
     };
 
+    // optional fill phase: a scripted burst of inserts into one hot bucket so that full buckets and
+    // pending candidates are common (the burst goes through the same oracles as every other op)
+    let mut forced: std::collections::VecDeque<(Id, bool, bool)> = Default::default();
+    let fill_mode = ctx.tape.choose(3);
+    if fill_mode > 0 {
+        let big: Vec<u32> = hot.iter().copied().filter(|b| *b >= 5).collect();
+        if !big.is_empty() {
+            let b = *ctx.tape.pick(&big);
+            let members: Vec<Id> = pool.iter().copied().filter(|id| log2(&local, id) == b + 1).collect();
+            let n = (12 + ctx.tape.choose(6) as usize).min(members.len());
+            let ndisc = ctx.tape.choose(4) as usize;
+            for (k, id) in members.iter().take(n).enumerate() {
+                forced.push_back((*id, k >= ndisc, fill_mode == 2 && ctx.tape.choose(3) == 0));
+            }
+        }
+    }
+    let nops = nops + forced.len() as u32;
+
     for opn in 1..=nops as u64 {
         if ctx.failed() {
             return;
@@ -164,12 +182,14 @@ pub fn run(ctx: &mut Ctx, which: Which) {
         let pre = snapshot(&table, &pool);
         let pend_pre: BTreeMap<usize, (Id, u64)> = pend.iter().map(|(k, (i, r))| (*k, (*i, r.created_ns))).collect();
         let now = interpose::manual_now_ns();
-        let kind = ctx.tape.choose(20);
-        let id = *ctx.tape.pick(&pool);
+        let (kind, id, connected, incoming, arg) = if let Some((fid, fc, fi)) = forced.pop_front() {
+            (0, fid, fc, fi, 0)
+        } else {
+            let kind = ctx.tape.choose(20);
+            let id = *ctx.tape.pick(&pool);
+            (kind, id, ctx.tape.choose(2) == 1, ctx.tape.choose(2) == 1, ctx.tape.choose(8))
+        };
         let key = key_of(&id);
-        let connected = ctx.tape.choose(2) == 1;
-        let incoming = ctx.tape.choose(2) == 1;
-        let arg = ctx.tape.choose(8);
         let bidx = (log2(&local, &id) - 1) as usize;
         // (key, reported_connected) if the op is a status report on a present node or a fresh insert
         let mut status_report: Option<(Id, bool)> = None;
